@@ -171,6 +171,51 @@ def h_rel_sctp_recv(ctx, layout, k, fwd=False):
     ctx.observe("k", k)
 
 
+def h_rel_reconfig(ctx, n):
+    """Outgoing stream resets (channel closes): n closes one after the other, each answered by the
+    peer, with the re-configuration request sequence number at a symbolic origin vs a small one."""
+    from aiortc.rtcsctptransport import StreamResetResponseParam
+
+    oa = ctx.int("reconfig_origin", 0, U32)
+    ob = 1000
+    with Env(crc=_crc()) as env:
+        runs = []
+        for origin in (oa, ob):
+            t = env.transport("controlling", established=True, local_tsn=5, remote_tsn=77)
+            t._reconfig_request_seq = origin
+            sent = []
+
+            async def rec(param, sent=sent):
+                sent.append(param)
+
+            t._send_reconfig_param = rec
+            chans = [env.channel(t, id=2 * i) for i in range(n)]
+            runs.append((t, origin, sent, chans))
+        for i in range(n):
+            obs = []
+            for t, origin, sent, chans in runs:
+                chans[i].close()
+                env.drain()
+                req = sent[-1] if sent else None
+                got_req = req is not None and len(sent) == i + 1
+                rel = ((req.request_sequence - origin) & U32) if got_req else None
+                wire_ok = True
+                if got_req:
+                    b = bytes(req) if not sx.active() else sx.to_bytes(req)  # must be serialisable
+                    wire_ok = len(b) == 12 + 2 * len(req.streams)
+                    sx.run(t._receive_reconfig_param(StreamResetResponseParam(response_sequence=req.request_sequence, result=1)))
+                    env.drain()
+                obs.append((got_req, rel, wire_ok, chans[i].readyState, ((t._reconfig_request_seq - origin) & U32)))
+            a, b = obs
+            ctx.check(a[0] and b[0], "reset-request-sent-for-every-close")
+            ctx.check(sx.eq(a[1], b[1]), "reconfig-request-sequence-origin-independent")
+            ctx.check(a[2] and b[2], "reset-request-serialisable")
+            ctx.check(a[3] == b[3] == "closed", "channel-closes-after-the-peer-answers", "%s / %s" % (a[3], b[3]))
+            ctx.check(sx.eq(a[4], b[4]), "next-request-sequence-origin-independent")
+    ctx.reach("rel-reconfig-done")
+    ctx.observe("n", n)
+
+
 def h_rel_sctp_send(ctx, q, ngaps):
     """Sender (_receive_sack_chunk incl. gap acks, miss counting, fast retransmit marks)."""
     oa = ctx.int("tsn_origin", 0, U32)
